@@ -589,6 +589,65 @@ def _take_flows(h, kw_text):
     return flows
 
 
+def _flow_items(canon):
+    """the take_token_* items of a canonical flow, in order"""
+    return re.findall(r"r|a\[[^\]]*\]|m\([^()]*(?:\(\))?\)", re.sub(r"[@*?{}|\-]", " ", canon).replace("( ", " ").replace(" )", " "))
+
+
+def _lean_code(src):
+    """Lean source without comments"""
+    src = re.sub(r"/-.*?-/", "", src, flags=re.S)
+    return re.sub(r"--[^\n]*", "", src)
+
+
+def _read_pairing(h):
+    """`def pairing` of lean/YashModel/Alias/Sites.lean: [(function, [[state names] per call])]"""
+    import os
+    path = os.path.join(h.ROOT, "lean", "YashModel", "Alias", "Sites.lean")
+    src = _lean_code(open(path).read())
+    m = re.search(r"\bdef pairing\b[^=]*:=\s*\[", src)
+    if not m:
+        h.fail("Sites.lean: `def pairing` not found")
+    body = _block(h, src, m.end() - 1, "Sites.lean def pairing")[0]
+    out = []
+    for em in re.finditer(r'\(\s*"(\w+)"\s*,\s*\[((?:\s*\[[^\[\]]*\]\s*,?)*)\s*\]\s*\)', body):
+        calls = [re.findall(r'"(\w+)"', c) for c in re.findall(r"\[([^\[\]]*)\]", em.group(2))]
+        out.append((em.group(1), calls))
+    if not out:
+        h.fail("Sites.lean: `def pairing` has no entry the extractor can read")
+    return out
+
+
+def _pair_flows(h, flows):
+    """zip the extracted flows with the hand-written pairing; a renamed function is found through its flow"""
+    pairing = _read_pairing(h)
+    src = _lean_code(open(__import__("os").path.join(h.ROOT, "lean", "YashModel", "Alias", "Sites.lean")).read())
+    mm = re.search(r"\bdef modelFlows\b[^=]*:=\s*\[", src)
+    model = dict(re.findall(r'\(\s*"(\w+)"\s*,\s*"([^"]*)"\s*\)', _block(h, src, mm.end() - 1, "modelFlows")[0])) if mm else {}
+    ext = dict(flows)
+    names = {n for n, _ in pairing}
+    pairs, used = [], set()
+    for n, calls in pairing:
+        fn = n
+        if fn not in ext:
+            cands = [x for x, c in flows if x not in names and x not in used and c == model.get(n)]
+            if len(cands) != 1:
+                h.fail(f"pairing: parser function {n} not found (and {len(cands)} unpaired functions have its flow)")
+            fn = cands[0]
+        used.add(fn)
+        items = _flow_items(ext[fn])
+        if len(items) != len(calls):
+            h.fail(f"pairing: {fn} has {len(items)} take_token_* calls ({ext[fn]}), the pairing of {n} lists {len(calls)}")
+        for it, sts in zip(items, calls):
+            if not sts:
+                h.fail(f"pairing: a call of {n} has no state")
+            pairs.append((n, it, sts))
+    left = [x for x, _ in flows if x not in used]
+    if left:
+        h.fail(f"pairing: token-taking parser functions without a pairing entry: {left}")
+    return pairs, sum(len(_flow_items(c)) for _, c in flows)
+
+
 def alias_tables(h):
     def load(rel):
         return _strip(h.read(rel))
@@ -764,6 +823,7 @@ def alias_tables(h):
     # --- which take_token_* the parser functions use (the position automaton `trans` of the model)
     takes = _subst_takes(h, kw_text)
     flows = _take_flows(h, kw_text)
+    pairs, n_items = _pair_flows(h, flows)
     auto_flag = _take_token_shapes(h, _strip(h.read("yash-syntax/src/parser/core.rs")))
 
     def lstr(x):
@@ -828,6 +888,10 @@ def alias_tables(h):
         "/-- the same with the function names (information only; the theorems do not look at the names) -/\n"
         "def takeFlowFns : List (String × String) := [\n  "
         + ",\n  ".join(f"({lstr(n)}, {lstr(c)})" for n, c in flows) + "]\n\n"
+        "/-- every take_token_* call of the flows, zipped with the states `Sites.pairing` pairs it with: (function, call, states) -/\n"
+        "def flowPairs : List (String × String × List String) := [\n  "
+        + ",\n  ".join(f"({lstr(n)}, {lstr(i)}, {strs(st)})" for n, i, st in pairs) + "]\n\n"
+        f"def takeItemCount : Nat := {n_items}\n\n"
         "/-- `take_token_auto` calls `substitute_alias(token, <this>)`; `take_token_manual(f)` calls it with `f` -/\n"
         f"def autoCommandFlag : Bool := {auto_flag}\n"
     )
